@@ -393,7 +393,7 @@ def judge(v, pid, obs, rows, scen_by_id):
     return traces, bad
 
 
-def strict(v, rows, skip):
+def strict(v, rows, skip, limit=None, rnd=None):
     """Strict validation against StreamSrv.tla (binding / drift). Traces with a forced DELETE (`delf`: session
     termination while handlers run is not modelled), with a failed setup or a panic are skipped."""
     tr = vlib.split_traces(rows)
@@ -402,6 +402,9 @@ def strict(v, rows, skip):
         if tid in skip or any(x.get("ev") in ("panic", "setup.error") or (x.get("ev") == "step" and x.get("op") == "delf") for x in t):
             continue
         keep.append((tid, t))
+    if limit and len(keep) > limit:
+        keep = [keep[i] for i in sorted(rnd.sample(range(len(keep)), limit))]
+    nkeep = len(keep)
     out = vlib.outdir(v.pid)
     accepted = 0
     for attempt in range(6):
@@ -425,7 +428,7 @@ def strict(v, rows, skip):
         v.drift.append("trace %s: step at line %d not explained by StreamSrv.tla: %s" % (tid, hwm - start, json.dumps(line)[:300]))
         keep = [(t, x) for (t, x) in keep if t != tid]
     v.cov["strict_traces_explained_by_spec"] = accepted
-    v.cov["strict_traces_skipped"] = len(tr) - len(keep)
+    v.cov["strict_traces_checked"] = nkeep
     return accepted
 
 
@@ -464,6 +467,13 @@ def family_run(pid, tier, seed, replay):
                      "StreamSrv.tla exhaustive results are for the stated small constants"]
     rnd = random.Random(seed * 7919 + (8 if pid == "C08" else 10))
     fam = FAMILY[pid]
+    import time
+    marks = [("start", time.time())]
+
+    def phase(name):
+        marks.append((name, time.time()))
+        v.cov["phase_wall_s"] = {marks[i][0]: round(marks[i][1] - marks[i - 1][1], 1) for i in range(1, len(marks))}
+
     rows = []
     if replay:
         rows = [json.load(open(replay))["replay"]["scenario"]]
@@ -475,6 +485,7 @@ def family_run(pid, tier, seed, replay):
             v.add_tlc(cfg, res)
             if not res.ok:
                 raise vlib.MachineryError("StreamSrv model violates %s on config %s (a lead, not a verdict)" % (res.violation, cfg))
+        phase("model")
         # 1b. vacuity witnesses (must be violated)
         if tier == "thorough":
             base, wits = fam["witness"]
@@ -487,11 +498,13 @@ def family_run(pid, tier, seed, replay):
                 if r2.violation != wit:
                     raise vlib.MachineryError("vacuity: witness %s not reachable in %s (%s)" % (wit, base, r2.error or r2.violation))
             v.cov["vacuity_witnesses_reached"] = len(wits)
+        phase("witness")
         # 2. scenarios generated by TLC from the model
-        limit = 150 if tier == "quick" else None
+        limit = 120 if tier == "quick" else None
         for i, (cfg, store, js, stateless, prime) in enumerate(fam["cover"][tier]):
             rows += cover_scenarios(v, cfg, store, js, stateless, prime, seed, rnd, limit, "cov%d." % i)
         n_cover = len(rows)
+        phase("cover")
         rows += simulate_scenarios(v, fam["gen"], 150 if tier == "quick" else 2500, 70, seed, rnd, "sim")
         v.cov["tlc_generated_scenarios"] = len(rows)
         v.cov["cover_scenarios_run"] = n_cover
@@ -500,12 +513,16 @@ def family_run(pid, tier, seed, replay):
             rows += [dict(r, id="x-" + r["id"]) for r in corner_scenarios("C08", rnd)]
         else:
             rows += [dict(r, id="x-" + r["id"]) for r in corner_scenarios("C10", rnd)]
+    phase("simulate")
     nrand = 0 if replay else (250 if tier == "quick" else 4000)
     obs, orows = run_harness(pid, rows, seed, nrand)
+    phase("go")
     traces, bad = judge(v, pid, obs, orows, {r["id"]: r for r in rows})
     coverage(v, traces)
+    phase("monitor")
     if not replay:
-        strict(v, orows, bad)
+        strict(v, orows, bad, limit=(250 if tier == "quick" else 3000), rnd=rnd)
+    phase("strict")
     for tid, start, trows in traces[:3]:
         v.sample({"trace": tid, "mode": mode_of(trows[0]), "steps": steps_of_trace(trows)[:14]})
     return v.finish()
